@@ -77,9 +77,14 @@ ASSUMPTIONS = [
     'make(shard=ShardConfig(i, k)) only on an unsharded source',
     'aggregator: exact integers [sum, count, xor-hash]; one mode updates its state in '
     'place (like the library\'s own MergeableMetric adapters), one returns a new state',
-    'a state object is restored from once, unless it went through deepcopy / pickle '
-    '(a second restore from the same in-memory state object is only observed, see '
-    'observation second_restore_from_same_state_object)',
+    'in the multi-generation cases every captured state object is restored from once; '
+    'restoring twice from ONE in-memory state object (first restored run drained before '
+    'the second restore) is a sub-check of its own (double_restore_checks), run with the '
+    'in-place and the functional exact aggregator and with the library\'s own '
+    'rolling_stats.MeanAndVariance().as_agg_fn() (count exact, mean / var rtol 1e-9)',
+    'sliced shapes: records are batches {x, f, g} (1..3 rows), aggregate over column x '
+    'with add_slice(\'f\') and add_slice((\'f\', \'g\')); every per-slice aggregate '
+    'is compared, slice values first appear at different points of the stream',
     'threads: num_threads in {1,2,3} on the source stage, comparison on multisets, one '
     'checkpoint (first generation), no failing indices; a case that exceeds its 30 s '
     'watchdog is inconclusive',
@@ -96,6 +101,7 @@ REQUIRED = [
     'multiplex_checks', 'pipe_single_checks', 'pipe_chain_checks',
     'pipe_agg_checks', 'pipe_ignore_error_checks', 'pipe_returned_checks',
     'pipe_make_shard_checks', 'pipe_gen2_checks', 'pipe_original_continues_checks',
+    'pipe_sliced_checks', 'double_restore_checks',
     'thread_checks', 'thread_k1_checks', 'thread_k2_checks', 'thread_k3_checks',
     'thread_original_continues_checks', 'second_generation_cases',
 ]
@@ -109,7 +115,9 @@ WATCHDOG_S = 30.0
 K_REL = 'sequence-iterator-state-relative-to-restored-start'
 K_THR = 'threaded-restore-loses-prefetched-elements'
 K_IGN = 'restore-after-ignored-source-error-repeats-element'
-K_UP = 'chained-restore-upstream-stage-aggregate-frozen-at-checkpoint'
+K_UP = 'chained-restore-freezes-upstream-stage-aggregate'
+K_SLICE = 'restore-loses-slice-states'
+K_ALIAS = 'restore-aliases-checkpoint-agg-state'
 K_RET = 'restored-iterator-returns-no-aggregate-result'
 K_DIT = 'data-iterator-state-before-first-next-forgets-restored-position'
 
@@ -398,6 +406,8 @@ def check_pipe_case(ctx, case):
     return
   n_stages = len(L.SHAPES[shape])
   ctx.count('pipe_single_checks' if n_stages == 1 else 'pipe_chain_checks')
+  if shape in L.SLICED_SHAPES:
+    ctx.count('pipe_sliced_checks')
   if fail:
     ctx.count('pipe_ignore_error_checks')
   if make_shard:
@@ -469,15 +479,20 @@ def check_pipe_case(ctx, case):
                    if (want_agg or {}).get(k) != (got_agg or {}).get(k))
     ups = L.upstream_agg_keys(shape)
     frozen = L.model_pipeline(shape, xs[:cuts[0]])[1] or {}
-    if wrong and all(k in ups and (got_agg or {}).get(k) == frozen.get(k)
+    if wrong and all(L.base_key(k) in ups
+                     and (got_agg or {}).get(k) == frozen.get(k)
                      for k in wrong):
+      # every wrong key belongs to a non-final stage and still has the value it
+      # had at the first checkpoint
       mech = K_UP
+    elif wrong and all('|' in k for k in wrong):
+      # unsliced aggregates right, per-slice aggregates wrong / missing
+      mech = K_SLICE
     else:
-      gen = '1' if r <= 1 else '2+'
-      mech = (f'{cls}-restore-gen{gen}-aggregate-'
+      mech = ('pipeline-restore-aggregate-'
               + ('differs' if elements_ok else
                  'inconsistent-with-delivered-elements')
-              + f'-{"chained" if n_stages > 1 else "single"}-{aggmode}')
+              + f'-{"chained" if n_stages > 1 else "single"}-stage')
     _viol(ctx, 'aggregate', case,
           {'got': got_agg, 'want': want_agg, 'uninterrupted': aggs,
            'wrong_keys': wrong, 'elements_ok': elements_ok}, mech)
@@ -496,26 +511,91 @@ def check_pipe_case(ctx, case):
               'restored-iterator-returned-aggregate-differs-from-agg-result')
 
 
-def observe_second_restore(ctx, case):
-  """Observation only: two restores from one in-memory state object."""
+def _meanvar_pipeline(cur):
+  import numpy as np
+  from ml_metrics._src.aggregates import rolling_stats
+  from ml_metrics._src.chainables import transform
+  return (transform.TreeTransform().data_source(cur)
+          .apply(lambda v: np.array([float(v), float(v) + 0.5]))
+          .aggregate(fn=rolling_stats.MeanAndVariance().as_agg_fn(),
+                     output_keys='mv'))
+
+
+def _mv(res):
+  m = dict(res)['mv']
+  return [int(m.count), float(m.mean), float(m.var)]
+
+
+def _close(a, b):
+  return a[0] == b[0] and all(
+      abs(x - y) <= 1e-9 * max(abs(x), abs(y)) + 1e-12 for x, y in zip(a[1:], b[1:]))
+
+
+def check_double_restore_case(ctx, case):
+  """Two restores from ONE in-memory checkpoint object (first one drained)."""
   cfg, shape, aggmode, c = case['src'], case['shape'], case['agg'], case['cut']
-  _, cur = L.build_source(cfg)
-  p = L.build_pipeline(shape, cur, aggmode)
-  it0 = p.make().iterate()
-  L.drain(it0)
-  agg0 = L.norm_agg(it0.agg_result)
-  it = p.make().iterate()
-  L.take(it, c)
-  state = it.state
-  it1 = p.make().iterate().from_state(state)
-  L.drain(it1)
-  it2 = p.make().iterate().from_state(state)
-  L.drain(it2)
-  ctx.count('second_restore_same_object_observations')
-  if L.norm_agg(it2.agg_result) != agg0:
-    ctx.observe('second_restore_from_same_state_object',
-                {'agg': aggmode, 'cut': c, 'got': L.norm_agg(it2.agg_result),
-                 'want': agg0})
+  xs = L.model_stream(cfg)
+  meanvar = aggmode == 'meanvar'
+  try:
+    _, cur = L.build_source(cfg)
+    p = _meanvar_pipeline(cur) if meanvar else L.build_pipeline(shape, cur, aggmode)
+    it0 = p.make().iterate()
+    full, _ = L.drain(it0)
+    agg0 = _mv(it0.agg_result) if meanvar else L.norm_agg(it0.agg_result)
+    n_full = len(full)
+    if not meanvar:
+      full = L.norm(full)
+  except Exception as e:  # pylint: disable=broad-exception-caught
+    _viol(ctx, 'exception', case, {'where': 'uninterrupted', 'err': repr(e)},
+          'pipeline-uninterrupted-run-raises')
+    return
+  ctx.case(('dbl', L.cfg_desc(cfg), shape, aggmode, c), 0 < c < len(xs))
+  if meanvar:
+    if n_full != len(xs) or agg0[0] != 2 * len(xs):
+      ctx.inconclusive_case('uninterrupted MeanAndVariance run differs from the model', case)
+      return
+  else:
+    outs, aggs = L.model_pipeline(shape, xs)
+    if full != outs or agg0 != aggs:
+      ctx.inconclusive_case('uninterrupted pipeline run differs from the model', case)
+      return
+  ctx.count('double_restore_checks')
+  try:
+    it = p.make().iterate()
+    before = L.take(it, c)
+    state = it.state
+    results = []
+    for _ in range(2):
+      itr = p.make().iterate().from_state(state)
+      rest, _ = L.drain(itr)
+      results.append((rest, _mv(itr.agg_result) if meanvar
+                      else L.norm_agg(itr.agg_result)))
+  except Exception as e:  # pylint: disable=broad-exception-caught
+    _viol(ctx, 'exception', case, {'err': repr(e)},
+          f'pipeline-double-restore-raises-{type(e).__name__}')
+    return
+  for which, (rest, agg) in enumerate(results, start=1):
+    n_ok = (len(before) + len(rest) == n_full) if meanvar else (
+        L.norm(before) + L.norm(rest) == full)
+    agg_ok = _close(agg, agg0) if meanvar else agg == agg0
+    if n_ok and agg_ok:
+      continue
+    inplace = aggmode in ('inplace', 'meanvar')
+    if which == 2 and n_ok and inplace and results[0][1] == agg:
+      # the checkpoint object now holds the FINAL state of the first restored run
+      # (its state objects were updated in place); the second run adds the
+      # remaining elements once more.
+      mech = K_ALIAS
+    elif which == 2 and n_ok and inplace:
+      dup = (agg[0] == agg0[0] + 2 * len(rest)) if meanvar else (
+          agg == L.model_pipeline(shape, xs + xs[c:])[1])
+      mech = K_ALIAS if dup else f'pipeline-double-restore-{which}-aggregate-differs'
+    else:
+      mech = (f'pipeline-double-restore-{which}-'
+              + ('aggregate-differs' if n_ok else 'elements-differ'))
+    _viol(ctx, 'double_restore', case,
+          {'restore': which, 'delivered_before': len(before),
+           'delivered_after': len(rest), 'agg': agg, 'want_agg': agg0}, mech)
 
 
 # ---------------------------------------------------------------------------
@@ -767,7 +847,7 @@ def mux_cases(n):
 
 
 PIPE_SHAPES = ('single', 'named', 'noagg', 'chain_last', 'chain_first',
-               'chain_both', 'chain3')
+               'chain_both', 'chain3', 'sliced', 'sliced_chain', 'sliced_both')
 
 
 def pipe_sources():
@@ -841,7 +921,7 @@ def thread_cases(rng, count, big=False):
     cases.append({
         'part': 'thr', 'src': cfg,
         'shape': rng.choice(['single', 'single', 'named', 'chain_last',
-                             'noagg']),
+                             'noagg', 'sliced']),
         'agg': rng.choice(['inplace', 'functional']),
         'k': 1 + (t % 3), 'cut': rng.randint(0, length),
         'dseed': rng.randrange(1 << 30),
@@ -1052,11 +1132,17 @@ def run_chunk(ctx, spec):
       cases = pipe_cases_for(cfg, mk, max_g, item['shape'])
       for case in cases:
         check_pipe_case(ctx, case)
-      if cases and item['shape'] in ('single', 'chain_last') and not cfg.get('fail'):
+      if cases and not cfg.get('fail') and not mk:
         length = len(L.model_stream(cfg))
-        for aggmode in ('inplace', 'functional'):
-          observe_second_restore(ctx, {'src': cfg, 'shape': item['shape'],
-                                       'agg': aggmode, 'cut': length // 2})
+        modes = ['inplace', 'functional']
+        if item['shape'] == 'single':
+          modes.append('meanvar')
+        for aggmode in modes:
+          for c in sorted({0, 1, length // 2, length}):
+            if c <= length:
+              check_double_restore_case(
+                  ctx, {'part': 'dbl', 'src': cfg, 'shape': item['shape'],
+                        'agg': aggmode, 'cut': c})
   elif mode == 'thr':
     rng = random.Random(spec['rseed'] * 99991 + spec['index'] * 131 + 5)
     for case in thread_cases(rng, spec['count'], spec['tier'] == 'thorough'):
@@ -1077,5 +1163,7 @@ def run_case(ctx, case):
     check_pipe_case(ctx, case)
   elif part == 'thr':
     check_thread_case(ctx, case)
+  elif part == 'dbl':
+    check_double_restore_case(ctx, case)
   else:
     raise ValueError(f'unknown case part {part!r}')
